@@ -3,3 +3,8 @@ module verif/tool
 go 1.24.0
 
 require golang.org/x/tools v0.41.0
+
+require (
+	golang.org/x/mod v0.32.0 // indirect
+	golang.org/x/sync v0.19.0 // indirect
+)
